@@ -185,6 +185,8 @@ def stage_signals(report, tier, rng, dist):
     for backend in (['fork'] if tier == 'quick' else ['fork', 'fork', 'spawn']):
         for double in (False, True):
             cfgs.append(dict(backend=backend, double=double, n=3, max_workers=2, wait_started=2, gap=0.3))
+    # a terminal's Ctrl-C goes to the whole foreground process group: the workers receive it too
+    cfgs.append(dict(backend='fork', double=False, n=3, max_workers=2, wait_started=2, group=True))
     if tier == 'thorough':
         cfgs.append(dict(backend='serial', double=False, n=2, max_workers=1, wait_started=1))
         cfgs.append(dict(backend='fork', double=False, n=3, max_workers=2, wait_started=2, no_progress=False, no_top=False))
@@ -230,6 +232,39 @@ def stage_signals(report, tier, rng, dist):
         finally:
             shutil.rmtree(d, ignore_errors=True)
     return len(cfgs)
+
+
+def run_termination_stage(prop, report, tier, seed, replay=None):
+    """C11: run_tasks also ends when it is interrupted — one KeyboardInterrupt at every tick of a few small process-runner
+    runs (tasks queued behind a single worker included); only non-termination is judged here (the rest is C14)."""
+    rng = rng_for(seed, prop, 'intr-termination')
+    cases = []
+    if replay is not None:
+        cases = [(replay['input']['case'], [replay['input']['k1']])]
+    else:
+        for ci in range(2 if tier == 'quick' else 10):
+            case = small_case(rng, 0.2)
+            if ci == 0:
+                # independent tasks behind one worker slot: some are still queued when the interrupt arrives
+                case.update(max_workers=1, specs=[['tuple', []] for _ in range(case['n'])], reads=[[] for _ in range(case['n'])],
+                            req=[[t, 0] for t in range(case['n'])])
+            base_obs, _, ticker, _ = I.run_interrupt(case, None, None)
+            cases.append((case, list(range(ticker.n))))
+    runs = 0
+    for case, ks in cases:
+        case = dict(case, watchdog_s=12)
+        hung = 0
+        for k1 in ks:
+            obs, oracle, ticker, script = I.run_interrupt(case, k1, None)
+            runs += 1
+            if obs['outcome'] == 'hang':
+                hung += 1
+                report.violation('C11:no-termination', f"after a KeyboardInterrupt at tick {k1} run_tasks neither returned nor raised: {obs.get('exc')}",
+                                 dict(case=case, k1=k1, level='tick-hang'))
+                if hung >= 2:
+                    break
+    report.coverage.update(evaluations=runs, distinct_nontrivial=runs, traces_validated_against_impl=runs, correspondence_mismatches=0,
+                           rule='one KeyboardInterrupt at every tick of small process-runner runs; termination only', distribution={'interrupted_runs': runs})
 
 
 def run(prop, report, tier, seed, replay=None):
